@@ -18,8 +18,8 @@ def _build_test_binary(ctx, harness_dirs=None, pkg=None, tags="verif", timeout=1
 CFG = dict(
     imports=["From Verif.C24 Require Import Model Spec Sender Spec2."],
     checker="check_case2",
-    n=dict(quick=60, thorough=1500),
-    shard=15,
+    n=dict(quick=40, thorough=1500),
+    shard=8,
     driver_args=lambda ctx, n, seed: ["-test.run", "^TestVerifC24$", "-test.count=1", "-verif.n", n, "-verif.seed", seed],
     rule="each case: one real snapcache.Cache (MaxBatchSize 1..100) fed event lists (update lists incl. unchanged values, "
          "blind deletes, nil values with non-delete type, resync 'new' for held keys, TTLs, v3 resources; status changes) "
